@@ -179,7 +179,7 @@ class KVStream(Stream):
                         fail(i, "panic in Get", "panic")
                     continue
                 exp = cur.get(P + unhex(f[1]))
-                got = None if impl == "nil" else unhex(impl[2:])
+                got = None if impl == "nil" else unhex(impl[2:].split(";k:", 1)[0])
                 if exp != got:
                     fail(i, "get does not return the last value put / nothing after delete: expected %r got %r" % (exp, got),
                          "get-differs-from-map:" + kind)
